@@ -28,7 +28,9 @@ RULE = ('random formulas (depth <= 4) over + - * / unary minus, integer powers, 
         'One case = one Expression object and a call history on it: evaluate_in_scope / evaluate_numeric / '
         'evaluate_with_exact_rationals / evaluate_symbolic(all)+evaluate / get_serialization_data->ExpressionScalar / '
         'numpy arrays of dyadic sample times, with argument types changing between calls (cached lambda reuse). Further '
-        'kinds: partial substitution (numbers, variables, swaps, terms mentioning a Sum index) then evaluation; operators '
+        'kinds: partial substitution (numbers, variables, swaps, terms mentioning a Sum index, one mapping binding X to a '
+        'number and other names to terms mentioning X) then evaluation, for ExpressionScalar and ExpressionVector; every '
+        'exact-mode call with exact inputs additionally runs the typed model on the formula read back from sympy; operators '
         'between ExpressionScalar and numbers of every type, both operand orders; tri-state comparisons with sample '
         'assignments; ExpressionVector (evaluate, serialise, index); malformed stream (missing variable, division by '
         'zero, index out of range). Non-trivial = formula with >= 3 nodes; distinct = distinct canonical JSON.')
@@ -37,8 +39,8 @@ TRUSTED = [
     'sympy (parser, printer, auto-simplification, lambdify), numpy, gmpy2: they ARE the implementation under comparison; '
     'nothing is assumed about them beyond what the generated cases exercise',
     'harness: generators, sympy-syntax and Gallina printers of the formula AST, exact float->rational conversion, '
-    'error-kind mapping; the Python reference evaluator only steers generation, fills the sin/cos/exp table and sets the '
-    'inexact flag (it never decides a case)',
+    'error-kind mapping; the sympy->AST reader (typed unit cases, tolerance flag, classifier); the Python reference '
+    'evaluator only steers generation, fills the sin/cos/exp table and sets the inexact flag (it never decides a case)',
 ]
 ASSUMPTIONS = [
     'summation limits and indices are built from int-typed variables only (range()/indexing reject floats by type, the '
@@ -46,7 +48,8 @@ ASSUMPTIONS = [
     'a summation limit does not mention the summation index',
     'where the written formula divides by zero nothing is required (sympy may cancel the division)',
     'float evaluations are required to be exact only when every intermediate value of the written formula is dyadic; '
-    'otherwise a relative tolerance 2^-30 applies and the call is counted under inexact_calls',
+    'otherwise (also when the formula sympy holds after re-association has an intermediate value no double represents) '
+    'a relative tolerance 2^-30 applies and the call is counted under inexact_calls',
     'TimeType scalars are not mixed with numpy arrays and not used in ExpressionVector (explicitly rejected by type)',
 ]
 
@@ -1010,6 +1013,17 @@ def _closed_floordiv(e):
     return False
 
 
+def _mixed_shape_junction(e, array_names):
+    """array-and-mixed-shapes, the class: an And / Or joins an operand that depends on an array-valued variable with
+    one that does not (numpy.logical_and.reduce over operands of different shape)"""
+    for s in X.subterms(e):
+        if s[0] == 'b' and s[1] in ('and', 'or'):
+            l, r = bool(X.fv(s[2]) & array_names), bool(X.fv(s[3]) & array_names)
+            if l != r:
+                return True
+    return False
+
+
 def _classify_call(e, kinds, scope, path, route, o, exact_required, extra_types=(), symbolic=False, impl_e=None,
                    parsed_parts=None):
     sc, vc, arr = X.split_scope(scope)
@@ -1031,10 +1045,16 @@ def _classify_call(e, kinds, scope, path, route, o, exact_required, extra_types=
         if 'err' in o and o['err'] != 'unbound' and 'ite' in kinds and \
                 any(X.eager_fails(e, dict(sc, **{x: l[j] for x, l in arr.items()}), vc) for j in range(n)):
             return 'piecewise-eager'
-        if o.get('err') == 'other:ValueError' and kinds & {'and', 'or'}:
+        if o.get('err') == 'other:ValueError' and _mixed_shape_junction(e, set(arr)):
             return 'array-and-mixed-shapes'
         return None
     a = X.analyse(e, sc, vc)
+    if 'value' not in a and impl_e is not None and exact_required:
+        # the written formula has no value here (a/a at a = 0) but sympy cancelled the offending part: the typed unit
+        # case judges the formula the implementation holds
+        a2 = X.analyse(impl_e, sc, vc)
+        if 'value' in a2:
+            a = a2
     tol = (not exact_required) and a['inexact']
     if not _fails(a, tol, o):
         return 'ok'
@@ -1082,9 +1102,14 @@ def classify(case, obs):
             return sorted(ids)[0] if ids and None not in ids else None
         if k == 'partial':
             o = obs['obs']
-            if not X.capture_free(_subs_ast(case), case['expr']) and 'hang' not in o and 'crash' not in o:
-                return 'subst-capture'
             se, exact = _partial_view(case)
+            if not X.capture_free(_subs_ast(case), case['expr']) and 'hang' not in o and 'crash' not in o:
+                # the class: a substituted term mentions the index of a Sum it lands under (guard capture_free of the
+                # Coq model is false) AND the observation is what the capturing substitution evaluates to
+                sc_, vc_, _ = X.split_scope(case['scope'])
+                a_ = X.analyse(se, sc_, vc_)
+                if not _fails(a_, True, o):
+                    return 'subst-capture'
             r = _classify_call(se, X.kinds(se), case['scope'], case['path'], case['route'], o, exact, symbolic=True,
                                impl_e=obs.get('impl_expr'))
             return None if r == 'ok' else r
@@ -1117,6 +1142,13 @@ def classify(case, obs):
         if k == 'build':
             o = obs['obs']
             whole, exact = _build_view(case)
+            if 'num' in case['b'] and case['b']['num']['ty'] == 'time' and case['swap'] and obs.get('a_closed') and \
+                    o.get('ty') == 'TimeType' and not X.fv(case['a']):
+                # the class: TimeType <op> closed expression went through float(): a close but inexact TimeType number
+                sc_, vc_, _ = X.split_scope(case['scope'])
+                a_ = X.analyse(whole, sc_, vc_)
+                if 'value' in a_ and _float_close(o, a_['value']) and F(o['val']) != a_['value']:
+                    return 'timetype-left-operand'
             r = _classify_call(whole, X.kinds(whole), case['scope'], case['path'], 'str', o, exact,
                                extra_types=[case['b']['num']['ty']]
                                if 'num' in case['b'] and case['op'] not in ('neg', 'pos') else [],
@@ -1159,10 +1191,15 @@ MANIFEST = {
     'level_text': 'Proof (partial by nature): the formula algebra is proved for all formulas/scopes -- simultaneous '
                   'substitution lemma (under an executable capture guard; refuted without it), partial-then-full = at '
                   'once, operators compute the operator on values, closed-formula comparison is sound, broadcasting '
-                  'evaluation = map of scalar evaluation.  That sympy-based evaluation equals the denotation is a '
-                  'correspondence statement, checked on generated formulas x scopes x all access paths, not proved.',
-    'level_note': 'Trusted: Coq kernel, harness printers/generators. sympy/numpy/gmpy2 are the implementation under '
-                  'comparison. Transcendental functions only under tolerance (never deciding).',
-    'technique': 'Coq proofs over a Q-denotation of the formula language + exact correspondence check against sympy/numpy',
+                  'evaluation = map of scalar evaluation (C12_vector, proved in round 2), typed evaluation '
+                  '(int / TimeType / float) has the value of the denotation and, under the executable guard '
+                  'exact_guard, an exact type (refuted without it: int / int).  That sympy-based evaluation equals the '
+                  'denotation is a correspondence statement, checked on generated formulas x scopes x all access '
+                  'paths, not proved.  sympy decides more comparisons than the model: their soundness is only tested.',
+    'level_note': 'Trusted: Coq kernel, harness printers/generators, the sympy->AST reader that feeds the typed unit '
+                  'cases. sympy/numpy/gmpy2 are the implementation under comparison. Transcendental functions only '
+                  'under tolerance (never deciding). evalT does not cover decimal float literals.',
+    'technique': 'Coq proofs over a Q-denotation of the formula language (+ a typed refinement for the exact-rational '
+                 'mode) + exact correspondence check against sympy/numpy',
     'design_ref': 'DESIGN.md §5 C12, §4.2',
 }
